@@ -44,6 +44,12 @@ def instances(tier, seed):
         add(f"patpose:{pp}:{sname}:axis{k % 3}", struct=sname, axes=[k % 3], other=(0.9, 0.4, 0.1), pat_pose=pp, pat_translate='sym', cost=25)
     for sname, ax in (('S20', 1), ('S21', 2), ('S14', 0), ('S15', 1)):
         add(f"patpose:{PAT_POSE[sname]}:{sname}:axis{ax}:antiparallel-copy", struct=sname, axes=[ax], other=(0.2, 0.7, 0.4), pat_pose=PAT_POSE[sname], pat_translate='sym', cost=25)
+    add("cell:perpendicular-not-axis-aligned:S22:axis0", struct='S22', axes=[0], other=(0, 0.6, 0.4), cost=40)
+    add("cell:perpendicular-not-axis-aligned:S22:axis1", struct='S22', axes=[1], other=(0.7, 0, 0.9), cost=40)
+    add("supercell:(2,1,1):S22-perpendicular-not-axis-aligned", struct='S22', axes=[2], other=(0.2, 0.7, 0), dims=(2, 1, 1), cost=120)
+    add("patpose:id:S23:two-fold-about-own-axis", struct='S23', axes=[1], other=(0.3, 0, 0.6), cost=20)
+    add("patpose:p3:S23:two-fold-about-own-axis", struct='S23', axes=[1], other=(0.3, 0, 0.6), pat_pose='p3', pat_translate='sym', cost=20)
+    add("hints:012:S23:two-fold-about-own-axis", struct='S23', axes=[2], other=(0.3, 0.2, 0), axisp1_idx=0, axisp2_idx=1, opoint_idx=2, cost=20)
     # (d) hints
     triples = [(a, b, c) for a in range(4) for b in range(4) for c in range(4) if len({a, b, c}) == 3]
     hl = triples if big else [(0, 1, 2), (2, 0, 3), (3, 2, 0), (1, 3, 2), (2, 3, 1)]
